@@ -15,6 +15,7 @@ import (
 	"fmt"
 	"go/ast"
 	"go/token"
+	"go/types"
 	"os"
 	"os/exec"
 	"path/filepath"
@@ -801,13 +802,106 @@ func checkBounds(res *Result) {
 		}
 		return "?", ""
 	}
+	// a full slice x[:] of a fixed-size array cannot be out of bounds, wherever it is written
+	fullArraySliceAt := func(file string, line int) bool {
+		var files []*ast.File
+		var infos []*types.Info
+		fset := p.Fset
+		if strings.HasPrefix(file, "pub/") {
+			for _, f := range p.Pkg.Syntax {
+				files = append(files, f)
+				infos = append(infos, p.Info)
+			}
+		} else {
+			fset = S.Fset
+			for _, vp := range S.Values {
+				for _, f := range vp.Syntax {
+					files = append(files, f)
+					infos = append(infos, vp.TypesInfo)
+				}
+			}
+		}
+		found, all := false, true
+		for i, f := range files {
+			if !strings.HasSuffix(fset.Position(f.Pos()).Filename, file) {
+				continue
+			}
+			ast.Inspect(f, func(n ast.Node) bool {
+				switch x := n.(type) {
+				case *ast.IndexExpr:
+					if fset.Position(x.Pos()).Line == line {
+						if _, isMap := infos[i].TypeOf(x.X).Underlying().(*types.Map); !isMap {
+							all = false
+						}
+					}
+				case *ast.SliceExpr:
+					if fset.Position(x.Pos()).Line == line {
+						found = true
+						t := infos[i].TypeOf(x.X)
+						if pt, ok := t.Underlying().(*types.Pointer); ok {
+							t = pt.Elem()
+						}
+						if _, isArr := t.Underlying().(*types.Array); !isArr || x.Low != nil || x.High != nil || x.Max != nil {
+							all = false
+						}
+					}
+				}
+				return true
+			})
+		}
+		return found && all
+	}
+	// a position without any index or slice expression of its own, whose calls all go to other
+	// modules: the check was inlined from library code (bytes.Buffer.String, say) and is the
+	// library's, not pub's
+	inlinedLibraryAt := func(file string, line int) bool {
+		if !strings.HasPrefix(file, "pub/") {
+			return false
+		}
+		own, calls, foreign := false, 0, true
+		for _, f := range p.Pkg.Syntax {
+			if !strings.HasSuffix(p.Fset.Position(f.Pos()).Filename, file) {
+				continue
+			}
+			ast.Inspect(f, func(n ast.Node) bool {
+				switch x := n.(type) {
+				case *ast.IndexExpr:
+					if p.Fset.Position(x.Pos()).Line == line {
+						if _, isMap := p.Info.TypeOf(x.X).Underlying().(*types.Map); !isMap {
+							own = true
+						}
+					}
+				case *ast.SliceExpr:
+					if p.Fset.Position(x.Pos()).Line == line {
+						own = true
+					}
+				case *ast.CallExpr:
+					if p.Fset.Position(x.Pos()).Line == line {
+						if fn := calleeFunc(p.Info, x); fn != nil {
+							calls++
+							if fn.Pkg() == nil || strings.HasPrefix(fn.Pkg().Path(), modPath) {
+								foreign = false
+							}
+						}
+					}
+				}
+				return true
+			})
+		}
+		return !own && calls > 0 && foreign
+	}
 	type agg struct {
 		n   int
 		pos string
 	}
 	byKey := map[string]*agg{}
 	var order []string
+	nAuto := 0
 	for _, s := range sites {
+		if fullArraySliceAt(s.file, s.line) || inlinedLibraryAt(s.file, s.line) {
+			nAuto++
+			continue
+		}
 		fn, v := funcAt(s.file, s.line)
 		k := s.file + "|" + fn + "|" + v
 		if byKey[k] == nil {
